@@ -231,6 +231,8 @@ impl FeoxStore {
         self.ensure_ttl_write_supported()?;
         self.validate_key(key)?;
 
+        #[cfg(feature = "verif")]
+        crate::verif::sched("ttl.before_update", 0, 0);
         let (new_record, old_record, cache_guarded) = self
             .hash_table
             .update(key, |stored_key, current| {
@@ -289,6 +291,8 @@ impl FeoxStore {
             })
             .ok_or(FeoxError::KeyNotFound)??;
 
+        #[cfg(feature = "verif")]
+        crate::verif::sched("ttl.before_enqueue", 0, 0);
         if !cache_guarded {
             self.remove_cached(key, &old_record);
         }
@@ -395,6 +399,12 @@ impl FeoxStore {
 
     /// Get current timestamp (public for TTL cleaner)
     pub fn get_timestamp_pub(&self) -> u64 {
+        #[cfg(feature = "verif")]
+        {
+            if let Some(now) = crate::verif::wall_now_ns() {
+                return now;
+            }
+        }
         SystemTime::now()
             .duration_since(UNIX_EPOCH)
             .unwrap()
